@@ -1807,6 +1807,9 @@ def _read_reader_conditional_macro(ctx: ReaderContext) -> LispReaderForm:
     conditionals."""
     try:
         return _read_reader_conditional(ctx)
+    except UnexpectedEOFError as e:
+        # Input which ends inside a reader conditional is still incomplete input
+        raise ctx.eof_error(e.message).with_traceback(e.__traceback__) from None
     except SyntaxError as e:
         raise ctx.syntax_error(e.message).with_traceback(e.__traceback__) from None
 
